@@ -143,6 +143,9 @@ def lam(kind, *p):
         return lambda r: p[0] + p[1] * r * r
     if kind == 'exp':
         return lambda r: p[0] * float(np.exp(-p[1] * r)) + p[2]
+    if kind == 'hinge':
+        # a Python int on the inner part of the domain, floats beyond (continuous): the type of the first value is not the type of all
+        return lambda r: p[0] if r < p[1] else p[0] + p[2] * (r - p[1])
     raise ValueError(kind)
 
 
@@ -278,7 +281,7 @@ def build_case(chk, rng, it):
     N = rng.randint(1, 7)
     nz = rng.randint(1, 3)
     qdeg = rng.choice([2 * d, 2 * d + 1, 2 * d + 2, max(1, d), 3, 1])
-    manufactured = rng.random() < 0.35 and d >= 2
+    manufactured = rng.random() < 0.35 and d >= 2 and it % 8 != 5
     if manufactured:
         qdeg = rng.choice([2 * d, 2 * d + 1, 2 * d + 3])
     coefs = rand_coefs(rng, manufactured)
@@ -324,6 +327,11 @@ def build_case(chk, rng, it):
         rng.shuffle(uneu)
     rrange = rng.choice([(1.0, 3.0), (0.1, 14.5), (2.0, 9.0), (0.5, 1.5)])
     func_rhs = rng.random() < 0.3
+    if it % 8 == 5 and not big_n:
+        # a coefficient function that returns a Python int on a part of the domain (finding F24)
+        j = it // 8 % 4
+        spec = ('hinge', [0, 1, -1, 2][j], rrange[0] + 0.37 * (rrange[1] - rrange[0]), [0.75, -0.5, 0.6, 1.5][j] / (rrange[1] - rrange[0]))
+        coefs[['drFactor', 'rFactor', 'ddThetaFactor', 'rhoFactor'][j]] = (spec, lam(*spec))
     grids = [(1,)] + [(p,) for p in range(2, 7) if p <= N] + [(p, q) for p in range(1, 5) for q in range(2, 4)
                                                                 if p * q <= 6 and p <= N and q <= nz]
     nprocs = rng.choice(grids)
@@ -737,8 +745,6 @@ def oracle_checks(chk, cs, desc, oa, Vc, rho_g, phi_g, rho_func, mv, lset, uset,
 
 def more_oracles(chk, cs, S, desc, rho_g, rho_func, phi_g, oa, mv, lset, uset, nprng, it):
     """linearity, mode independence, serial == parallel, int/float Neumann lists (discrete right-hand sides)"""
-    if rho_func is not None:
-        return
     N, nz, nr = cs['N'], cs['nz'], cs['nr']
     eps = common.EPS
     serial = dict(cs, nprocs=[1])
@@ -748,6 +754,18 @@ def more_oracles(chk, cs, S, desc, rho_g, rho_func, phi_g, oa, mv, lset, uset, n
         idx = mode_index_set(oa['nb'], mv[I], lset, uset)
         conds.append(np.linalg.cond((oa['stiff'] - mv[I] ** 2 * oa['k2'])[np.ix_(idx, idx)]) if idx else 1.0)
     conds = np.array(conds)
+    if rho_func is not None:
+        # linearity for a function right-hand side: a complex multiple of the function gives that multiple of the solution (the grids
+        # are complex; finding F26)
+        c = complex(nprng.uniform(-2, 2), nprng.uniform(0.5, 2) * (1 if it % 2 else -1))
+        p1 = gather_phi(run_solver(serial, S, rho_g, rho_func, want_attrs=False), rho_g.shape)
+        pc = gather_phi(run_solver(serial, S, rho_g, lambda r: c * rho_func(r), want_attrs=False), rho_g.shape)
+        tol = 1024 * eps * conds[:, None] * np.maximum(abs(c) * np.abs(p1).max(axis=2), 1e-300)
+        if not (np.abs(pc - c * p1).max(axis=2) <= tol).all():
+            chk.fail('C14:linearity-function-rhs', 'the solution for a function right-hand side is not linear in rho: solve(c*f) != c*solve(f) '
+                     'for a complex number c', dict(desc, c=[c.real, c.imag]), 0.0, float(np.abs(pc - c * p1).max()))
+        chk.count('linearity cases (function right-hand side, complex multiple)')
+        return
     if which == 0:
         a, b = nprng.uniform(-2, 2, size=2)
         rho2 = nprng.uniform(-1, 1, size=rho_g.shape) + 1j * nprng.uniform(-1, 1, size=rho_g.shape)
